@@ -74,7 +74,14 @@ def mk_breaker(init, world):
     def make():
         world.t = T0
         b = CircuitBreaker(failure_threshold=2, window_s=10.0, recovery_timeout_s=5.0, class_thresholds={EC.SERVER_ERROR: 2})
-        if init == "closed":
+        if init == "closedC":
+            # the class threshold is the only one within reach
+            b = CircuitBreaker(failure_threshold=5, window_s=10.0, recovery_timeout_s=5.0, class_thresholds={EC.SERVER_ERROR: 2})
+        elif init == "near3":
+            # threshold 3, one counted failure so far: two more racing failures must open the circuit exactly once
+            b = CircuitBreaker(failure_threshold=3, window_s=10.0, recovery_timeout_s=5.0, class_thresholds={EC.SERVER_ERROR: 2})
+            b.record_failure(EC.TRANSIENT)
+        elif init == "closed":
             pass
         elif init == "near":
             b.record_failure(EC.TRANSIENT)
@@ -174,7 +181,7 @@ def sequential_spec(make, program, world):
 
 def programs_for(kind, rng, n):
     ops = BREAKER_OPS if kind == "breaker" else BUDGET_OPS
-    inits = ["closed", "near", "open", "expired", "probing", "halfopen-free", "stale-failure", "stale+fresh"] if kind == "breaker" else ["empty", "two-left", "one-left", "full", "all-expired", "expired-head+live"]
+    inits = ["closed", "near", "open", "expired", "probing", "halfopen-free", "stale-failure", "stale+fresh", "closedC", "near3"] if kind == "breaker" else ["empty", "two-left", "one-left", "full", "all-expired", "expired-head+live"]
     fixed = []
     if kind == "breaker":
         fixed = [
@@ -194,6 +201,20 @@ def programs_for(kind, rng, n):
             ("probing", [["success"], ["failT"], ["failT"]]),
             ("probing", [["success"], ["allow"], ["failT"]]),
             ("near", [["failT"], ["allow"], ["failT"]]),
+            # the first failures of a class / of the breaker arrive from two threads at once (anything created on first use)
+            ("closed", [["failS"], ["failS"]]),
+            ("closed", [["failS"], ["failS"], ["state"]]),
+            ("closed", [["failT"], ["failT"]]),
+            ("near3", [["failT"], ["failT"]]),
+            ("closedC", [["failS"], ["failS"]]),
+            ("closedC", [["failS"], ["failS"], ["failT"]]),
+            ("closedC~", [["failS"], ["failS"]]),
+            # the same while the clock moves a little between a thread's clock reading and its turn on the lock (trailing "~": a ticker
+            # thread advances the clock by 0.5 s steps; far less than window_s / recovery_timeout_s, so every sequential order gives the same answers)
+            ("near3~", [["failT"], ["failT"]]),
+            ("near~", [["failT"], ["failS"], ["failT"]]),
+            ("closed~", [["failS", "failS"], ["failS", "state"]]),
+            ("closed~", [["failT"], ["failT"], ["allow"]]),
         ]
     else:
         fixed = [
@@ -218,10 +239,18 @@ def programs_for(kind, rng, n):
 
 
 def explore(ctx, kind, init, program, world, rng, bound, limit, nrandom):
-    make = mk_breaker(init, world) if kind == "breaker" else mk_budget(init, world)
+    moving = init.endswith("~")
+    base_init = init.rstrip("~")
+    make = mk_breaker(base_init, world) if kind == "breaker" else mk_budget(base_init, world)
     spec = sequential_spec(make, program, world)
     ctx.cnt["sequential_orders_run"] += len(spec)
     progs = [[OPS[o] for o in th] for th in program]
+    if moving:
+        def tick(b):
+            world.t += 0.5
+            return ("tick",)
+
+        progs = progs + [[tick, tick, tick]]
     desc = {"component": kind, "initial_state": init, "program": program}
     seen = set()
     outcomes = set()
@@ -250,7 +279,9 @@ def explore(ctx, kind, init, program, world, rng, bound, limit, nrandom):
         if r["errors"]:
             ctx.viol("operation-raised-under-concurrency", f"{r['errors']} in {desc}; schedule {list(key)}", {"desc": desc, "schedule": list(key)})
             return
-        res = tuple(tuple(x) for x in r["results"])
+        res = tuple(tuple(x) for x in (r["results"][:-1] if moving else r["results"]))
+        if moving:
+            ctx.cnt["breaker_schedules_with_a_moving_clock"] += 1
         fp = fingerprint(r["obj"], world)
         outcomes.add((res, fp))
         if (res, fp) not in spec:
@@ -514,6 +545,7 @@ def conclude(ctx):
         "stress_rounds": (ctx.cnt["stress_rounds"], 10),
         "moving_clock_schedules": (ctx.cnt["moving_clock_schedules"], 500),
         "moving_clock_ops_spanning_a_tick": (ctx.cnt["moving_clock_ops_spanning_a_tick"], 100),
+        "breaker_schedules_with_a_moving_clock": (ctx.cnt["breaker_schedules_with_a_moving_clock"], 300),
     }
     return dict(
         rule=(
@@ -530,7 +562,7 @@ def conclude(ctx):
         assumptions=[
             "pre-emption is injected at source-line granularity (sys.monitoring LINE events inside the redress package) and at lock acquire/release; bytecode-level pre-emption only in the free-running stress",
             "the clock is frozen during a linearizability race (the components read it outside the lock by design); budget races with a moving clock (a ticker thread) are judged by the window rule with every "
-            "operation's reading known up to [clock at call, clock at return]; breaker races with a moving clock are not explored",
+            "operation's reading known up to [clock at call, clock at return]; breaker races with a moving clock are explored only from states in which a 1.5 s advance changes no sequential answer",
             "the component is its own sequential specification (C06/C07/C10 tie it to the models)",
             "schedules beyond the pre-emption bound are sampled by random walks only",
         ],
@@ -573,11 +605,19 @@ def replay(data):
     d = p["desc"]
     world = env.World()
     with env.active(world):
-        make = mk_breaker(d["initial_state"], world) if d["component"] == "breaker" else mk_budget(d["initial_state"], world)
+        moving = d["initial_state"].endswith("~")
+        base_init = d["initial_state"].rstrip("~")
+        make = mk_breaker(base_init, world) if d["component"] == "breaker" else mk_budget(base_init, world)
         spec = sequential_spec(make, d["program"], world)
         progs = [[OPS[o] for o in th] for th in d["program"]]
+        if moving:
+            def tick(b):
+                world.t += 0.5
+                return ("tick",)
+
+            progs = progs + [[tick, tick, tick]]
         r = sched.run_schedule(make, progs, prefix=p["schedule"])
-        res = tuple(tuple(x) for x in r["results"])
+        res = tuple(tuple(x) for x in (r["results"][:-1] if moving else r["results"]))
         bad = r["sched"].deadlock or bool(r["errors"])
         fp = None
         if not bad:
